@@ -27,6 +27,8 @@ def random_config(kind, rnd, max_flen=16):
         c['biort'], c['qshift'] = rnd.choice(refs.BIORTS), rnd.choice(refs.QSHIFTS)
         c['J'] = rnd.choice([1, 2, 3])
         c['shape'] = [rnd.choice([4, 5, 6, 8, 10, 12, 14, 24, 36]), rnd.choice([4, 6, 7, 8, 12, 20, 40])]
+        if rnd.random() < 0.25:
+            c['dt_mode'] = 'zero'         # the padding-mode option of the DTCWT modules (default 'symmetric')
     else:
         c['biort'] = rnd.choice(['near_sym_a', 'near_sym_b', 'near_sym_b_bp', 'antonini', 'legall'])
         c['qshift'] = 'qshift_b_bp' if c['biort'] == 'near_sym_b_bp' else rnd.choice(['qshift_a', 'qshift_b', 'qshift_c'])
@@ -62,9 +64,10 @@ class Adapter:
             elif k == 'swt':
                 self.mod = SWTForward(J=cell['J'], wave=cell['wave'], mode=cell['mode'])
             elif k == 'dtf':
-                self.mod = pw.DTCWTForward(biort=cell['biort'], qshift=cell['qshift'], J=cell['J'])
+                self.mod = pw.DTCWTForward(biort=cell['biort'], qshift=cell['qshift'], J=cell['J'],
+                                           mode=cell.get('dt_mode', 'symmetric'))
             elif k == 'dti':
-                self.mod = pw.DTCWTInverse(biort=cell['biort'], qshift=cell['qshift'])
+                self.mod = pw.DTCWTInverse(biort=cell['biort'], qshift=cell['qshift'], mode=cell.get('dt_mode', 'symmetric'))
             elif k == 'scat1':
                 self.mod = pw.ScatLayer(biort=cell['biort'], magbias=cell['magbias'], combine_colour=cell['colour'])
             elif k == 'scat2':
